@@ -197,4 +197,14 @@ const caseTail = "Definition M := Eval vm_compute in mismatches check_case cases
 	"Definition NSYS_NOTIFIED := Eval vm_compute in (n_sys_notified cases : Z).\nPrint NSYS_NOTIFIED.\n" +
 	"Definition NSYS_NH_USER := Eval vm_compute in (n_sys_nh_resp 2 cases : Z).\nPrint NSYS_NH_USER.\n" +
 	"Definition NSYS_NH_AUTH := Eval vm_compute in (n_sys_nh_resp 3 cases : Z).\nPrint NSYS_NH_AUTH.\n" +
-	"Definition NE2E := Eval vm_compute in (n_e2e cases : Z).\nPrint NE2E.\n"
+	"Definition NE2E := Eval vm_compute in (n_e2e cases : Z).\nPrint NE2E.\n" +
+	"Definition NCFG_TOML := Eval vm_compute in (n_cfg 0 cases : Z).\nPrint NCFG_TOML.\n" +
+	"Definition NCFG_YAML := Eval vm_compute in (n_cfg 1 cases : Z).\nPrint NCFG_YAML.\n" +
+	"Definition NCFG_JSON := Eval vm_compute in (n_cfg 2 cases : Z).\nPrint NCFG_JSON.\n" +
+	"Definition NCFG_INI := Eval vm_compute in (n_cfg 3 cases : Z).\nPrint NCFG_INI.\n" +
+	"Definition NCFG_FLAGS := Eval vm_compute in (n_cfg 4 cases : Z).\nPrint NCFG_FLAGS.\n" +
+	"Definition NCFG_DEFAULT_REFUSED := Eval vm_compute in (n_cfg_default_refused cases : Z).\nPrint NCFG_DEFAULT_REFUSED.\n" +
+	"Definition NXTCP_KCP := Eval vm_compute in (n_xtcp 0 cases : Z).\nPrint NXTCP_KCP.\n" +
+	"Definition NXTCP_QUIC := Eval vm_compute in (n_xtcp 1 cases : Z).\nPrint NXTCP_QUIC.\n" +
+	"Definition NFIRST := Eval vm_compute in (n_first cases : Z).\nPrint NFIRST.\n" +
+	"Definition NSYS_RACE_LOSER := Eval vm_compute in (n_sys_late cases : Z).\nPrint NSYS_RACE_LOSER.\n"
